@@ -23,7 +23,7 @@ RULE = (
 ASSUMPTIONS = ["child processes are replaced by harness-controlled fake processes (asyncio.create_subprocess_shell patched in the harness process)"]
 
 
-QUICK_BUDGET = {"cases": 50000, "deadline_s": 170, "case_timeout_s": 60, "floors": {"spawn_events": 57996, "bad_dep_tasks": 20000}}
+QUICK_BUDGET = {"cases": 50000, "deadline_s": 170, "case_timeout_s": 60, "floors": {"spawn_events": 57996, "bad_dep_tasks": 20000, "real_dependents_checked": 60}}
 THOROUGH_FACTOR = 16  # thorough = the same workload with 16x the cases (floors scale along)
 
 
@@ -34,6 +34,8 @@ def budget(tier):
 
 
 def gen_case(rng, idx, tier):
+    if idx % 2501 == 7:
+        return {"lane": "real", "seed": rng.randrange(1 << 30), "cores": rng.choice([2, 3]), "timeout_s": 240}
     return poolcase.gen_pool_case(rng, faults=(idx % 4 == 0))
 
 
@@ -42,6 +44,10 @@ def on_timeout(case, frames, timeout_s):
 
 
 def run_case(case):
+    if case.get("lane") == "real":
+        from .. import realpool_lanes
+
+        return realpool_lanes.run_real_c11(case)
     res = Result()
     d = tempfile.mkdtemp(prefix="gwfv-pool-")
     try:
